@@ -84,6 +84,18 @@ def generate(seed):
         p = g.path_from_docs(ctx, allow_mods=False)
         if p[0] == "path":
             paths.append(p[:4] + (r.randrange(len(docs)),))
+    # numeric twins: the same path with an int part spelled as the == float / bool
+    # (1, 1.0 and True are different parts: key-or-index, key only, key-or-index)
+    if r.random() < 0.3:
+        cands = [p for p in paths if p[0] == "path" and any(x[0] == "prim" and isinstance(x[1], int) and not isinstance(x[1], bool) for x in p[1])]
+        if cands:
+            p = r.choice(cands)
+            idx = [i for i, x in enumerate(p[1]) if x[0] == "prim" and isinstance(x[1], int) and not isinstance(x[1], bool)]
+            i = r.choice(idx)
+            k = p[1][i][1]
+            twin = float(k) if (r.random() < 0.8 or k not in (0, 1)) else bool(k)
+            tp = ("path", p[1][:i] + (("prim", twin),) + p[1][i + 1 :], p[2], p[3])
+            paths.insert(r.randrange(len(paths) + 1), tp)
     parts = []
     for _ in range(r.randint(1, 3)):
         d = r.choice(docs)
